@@ -281,6 +281,9 @@ func (r *vRunnable) Lifecycle(input map[string]any) (step.Lifecycle[step.Lifecyc
 }
 func (r *vRunnable) RunSchema() map[string]*schema.PropertySchema { return nil }
 func (r *vRunnable) Start(input map[string]any, runID string, h step.StageChangeHandler) (step.RunningStep, error) {
+	if r.outcome["start-fails"] == 1 {
+		return nil, &verifrt.Err{Msg: "the step cannot be started"}
+	}
 	run := r.run
 	if r.holder != nil {
 		run = verifAtomicPick(r.holder, verifrt.Gid())
